@@ -59,6 +59,7 @@ def mean_cases(draw):
         weights = [draw(st.lists(st.one_of(st.integers(1, 16).map(lambda k: k / 4.0), gen.finite(0.01, 100)), min_size=n, max_size=n))
                    for _ in range(ncomp)]
     return dict(layout=lay, points=pts, data=data, weights=weights, wmode=wmode, center=draw(st.booleans()),
+                extra=draw(st.sampled_from([0, 0, 1, 2])), drop=draw(st.booleans()),
                 shape=draw(st.sampled_from(blocks.shape_options(n))), readonly=draw(st.booleans()), orders=draw(build.orders_strategy()), container=draw(st.sampled_from(build.CONTAINERS)))
 
 
@@ -95,7 +96,9 @@ def check_mean(case, ctx):
     ncomp = len(data)
     d_arg = data[0] if ncomp == 1 else data
     w_arg = None if weights is None else (weights[0] if ncomp == 1 else weights)
-    bm = vd.BlockMean(center_coordinates=case["center"], uncertainty=case["wmode"].startswith("uncertainty"), **kw)
+    # extra coordinates (station heights, times): dropped by default, otherwise averaged per block like easting and northing
+    extras = [lay_([1000.0 * (j + 1) + 0.5 * k for k in range(len(xy))], shape) for j in range(case.get("extra", 0))]
+    bm = vd.BlockMean(center_coordinates=case["center"], uncertainty=case["wmode"].startswith("uncertainty"), drop_coords=case.get("drop", True), **kw)
     if case["wmode"] == "uncertainty_noweights":
         try:
             res = bm.filter((e, n), d_arg)
@@ -107,7 +110,8 @@ def check_mean(case, ctx):
     P = lambda a: build.present(a, case.get("container"))  # noqa: E731
     pd_arg = P(d_arg) if not isinstance(d_arg, tuple) else tuple(P(x) for x in d_arg)
     pw_arg = None if w_arg is None else (P(w_arg) if not isinstance(w_arg, tuple) else tuple(P(x) for x in w_arg))
-    res = bm.filter((P(e), P(n)), pd_arg, pw_arg) if weights is not None else bm.filter((P(e), P(n)), pd_arg)
+    pcoords = (P(e), P(n)) + tuple(P(x) for x in extras)
+    res = bm.filter(pcoords, pd_arg, pw_arg) if weights is not None else bm.filter(pcoords, pd_arg)
     for a, b in zip(arrays, before):
         ctx.check(np.array_equal(a, b), "BlockMean.filter modified one of its input arrays")
     ctx.check(isinstance(res, tuple) and len(res) == 3, "filter must return (coordinates, mean, weights)")
@@ -119,6 +123,14 @@ def check_mean(case, ctx):
         ctx.check(isinstance(out_mean, tuple) and isinstance(out_w, tuple) and len(out_mean) == ncomp and len(out_w) == ncomp,
                   "expected %d components of means and weights", ncomp)
     occupied = sorted(set(labels.tolist()))
+    n_out = 2 if case.get("drop", True) else 2 + len(extras)
+    ctx.check(len(out_coords) == n_out, "BlockMean(drop_coords=%r) given %d extra coordinate(s) returned %d coordinate arrays", case.get("drop", True), len(extras), len(out_coords))
+    for j in range(2, n_out):
+        for pos, b in enumerate(occupied):
+            m = np.where(labels == b)[0]
+            exp_x = float(np.mean(extras[j - 2].ravel()[m]))
+            ctx.check(abs(float(np.asarray(out_coords[j])[pos]) - exp_x) <= 1e-9 * abs(exp_x), "extra coordinate %d of block %d is %r, the mean over its members is %r",
+                      j - 2, b, float(np.asarray(out_coords[j])[pos]), exp_x)
     for arr in list(out_coords) + list(out_mean) + list(out_w):
         ctx.check(np.asarray(arr).shape == (len(occupied),), "expected one entry per non-empty block (%d), got %s", len(occupied), np.asarray(arr).shape)
     nt = False
